@@ -64,9 +64,24 @@ theorem verifyStore_ok {α : Type} {E : VerifyEnv} {name : String} {ser : α →
   | error e => simp only [hc] at this; cases this
   | ok u => cases u; rfl
 
+theorem verifyValueStore_ok {E : VerifyEnv} {store : List (Cid × String)}
+    (h : verifyValueStore E store = .ok ()) : ∀ cid v, (cid, v) ∈ store → E.cidCheck cid (strBytes v) = .ok () ∧ E.isJson v = true := by
+  intro cid v hp
+  have := allOk_ok h (cid, v) hp
+  cases hc : E.cidCheck cid (strBytes v) with
+  | error e => simp only [hc] at this; cases this
+  | ok u =>
+    cases u
+    simp only [hc] at this
+    cases hj : E.isJson v with
+    | true => exact ⟨rfl, rfl⟩
+    | false => simp [hj] at this
+
 /-- what a successful `CidInfo.verify` establishes -/
 structure StoresOk (E : VerifyEnv) (ci : CidInfo) : Prop where
   value : ∀ cid v, (cid, v) ∈ ci.values → E.cidCheck cid (strBytes v) = .ok ()
+  /-- every stored value text is JSON (so the lazy `RawValue::get_value` cannot fail later) -/
+  valueJson : ∀ cid v, (cid, v) ∈ ci.values → E.isJson v = true
   tetraplet : ∀ cid (t : Tetraplet), (cid, t) ∈ ci.tetraplets → E.cidCheck cid (strBytes t.json) = .ok ()
   canonElement : ∀ cid (a : CanonCidAggregate), (cid, a) ∈ ci.canonElements → E.cidCheck cid (strBytes a.json) = .ok ()
   canonResult : ∀ cid (a : CanonResultCidAggregate), (cid, a) ∈ ci.canonResults → E.cidCheck cid (strBytes a.json) = .ok ()
@@ -93,7 +108,7 @@ theorem verify_ok {E : VerifyEnv} {ci : CidInfo} (h : ci.verify E = .ok ()) : St
   obtain ⟨hcrr, hcer⟩ := andThen_ok hc
   unfold CidInfo.verifyServiceResultStore at hs
   obtain ⟨hsr, hsrr⟩ := andThen_ok hs
-  refine ⟨verifyStore_ok hv, verifyStore_ok ht, verifyStore_ok hce, verifyStore_ok hcr, verifyStore_ok hsr, ?_, ?_, ?_⟩
+  refine ⟨fun cid v hp => (verifyValueStore_ok hv cid v hp).1, fun cid v hp => (verifyValueStore_ok hv cid v hp).2, verifyStore_ok ht, verifyStore_ok hce, verifyStore_ok hcr, verifyStore_ok hsr, ?_, ?_, ?_⟩
   · intro cid a hp
     obtain ⟨h1, h2⟩ := andThen_ok (allOk_ok hsrr (cid, a) hp)
     exact ⟨checkReference_ok h1, checkReference_ok h2⟩
